@@ -3,6 +3,7 @@ package rules
 import (
 	"fmt"
 	"go/token"
+	"go/types"
 
 	"golang.org/x/tools/go/ssa"
 
@@ -355,5 +356,169 @@ func RPeriod(c *core.Ctx) {
 	}
 	if n == 0 {
 		c.Anchor("time.Sleep in runClock")
+	}
+}
+
+// ---------------------------------------------------------------------------
+// R-FRESHREAD: a deadline is computed from a clock value that is known live.
+//
+// fast.current is only kept up to date while the clock goroutine runs; after
+// it has stopped the value is stale until makeDeadline refreshes it under the
+// mutex.  Two orderings make a deadline computed from a stale value escape:
+//   (1) lock-free path: `current` is read BEFORE `clockEnd`.  Another caller
+//       may refresh current and publish a larger clockEnd in between; the
+//       stale current + d then compares below the new clockEnd and is
+//       returned although it already lies in the past.  Reading clockEnd
+//       first closes the window (a clockEnd that covers the deadline was
+//       published after current was refreshed).
+//   (2) locked path: the deadline is recomputed from current only when the
+//       clock is found stopped.  If another caller restarted it between the
+//       first read and the lock, the stale pre-lock value is kept.  The
+//       value handed to extendClock must come from a read made under the lock
+//       on every path.
+// ---------------------------------------------------------------------------
+
+func RFreshRead(c *core.Ctx) {
+	c.Rule("R-FRESHREAD", "in makeDeadline (1) the read of clockEnd that decides the lock-free path precedes the read of current the deadline is computed from, and (2) the deadline passed to extendClock is computed, on every path, from a read of current made while fast.mu is held (not from the read made before the lock)", 2)
+	p := c.P
+	md := p.SSAFunc(p.LookupFunc("", "makeDeadline"))
+	extend := p.SSAFunc(p.LookupFunc("", "extendClock"))
+	read := p.SSAFunc(p.LookupFunc("", "atomicTime.read"))
+	cur := p.LookupField("", "fastclock", "current")
+	cend := p.LookupField("", "fastclock", "clockEnd")
+	if md == nil || extend == nil || read == nil || cur == nil || cend == nil {
+		c.Anchor("makeDeadline / extendClock / atomicTime.read / fastclock.current / clockEnd")
+		return
+	}
+	c.Visit(core.SSAName(md))
+	isRead := func(ins ssa.Instruction, f *types.Var) bool {
+		call, ok := ins.(*ssa.Call)
+		if !ok || call.Call.StaticCallee() != read || len(call.Call.Args) == 0 {
+			return false
+		}
+		return core.FieldVarOfAddr(call.Call.Args[0]) == f
+	}
+	isLock := func(ins ssa.Instruction, name string) bool {
+		call, ok := ins.(*ssa.Call)
+		if !ok {
+			return false
+		}
+		cal := call.Call.StaticCallee()
+		return cal != nil && cal.Name() == name && cal.Pkg != nil && cal.Pkg.Pkg.Path() == "sync"
+	}
+	// (1) in the entry block: first read of clockEnd vs first read of current
+	posEnd, posCur := -1, -1
+	for i, ins := range md.Blocks[0].Instrs {
+		if isRead(ins, cend) && posEnd < 0 {
+			posEnd = i
+		}
+		if isRead(ins, cur) && posCur < 0 {
+			posCur = i
+		}
+	}
+	if posEnd < 0 || posCur < 0 {
+		c.Unknown("makeDeadline / lock-free path reads clockEnd before current", md.Pos(), "the entry block does not read both clockEnd and current (clockEnd at %d, current at %d)", posEnd, posCur)
+	} else {
+		c.Check(posEnd < posCur, "makeDeadline / lock-free path reads clockEnd before current", md.Pos(),
+			"current is read first: a concurrent caller can refresh current and publish a larger clockEnd in between, so a deadline computed from the stale current passes the `end <= clockEnd` test and is returned although it is already reached (immediate false timeout)")
+	}
+	// (2) the argument of extendClock: every leaf read of current must happen under the lock
+	var arg ssa.Value
+	for _, b := range md.Blocks {
+		for _, ins := range b.Instrs {
+			if call, ok := ins.(*ssa.Call); ok && call.Call.StaticCallee() == extend && len(call.Call.Args) > 0 {
+				arg = call.Call.Args[0]
+			}
+		}
+	}
+	if arg == nil {
+		c.Anchor("the call of extendClock in makeDeadline")
+		return
+	}
+	// locked region: instructions between a Lock and the following Unlock (per block, in order; regions spanning blocks via dominance)
+	locked := map[ssa.Instruction]bool{}
+	var walk func(b *ssa.BasicBlock, held bool, seen map[*ssa.BasicBlock]bool)
+	walk = func(b *ssa.BasicBlock, held bool, seen map[*ssa.BasicBlock]bool) {
+		if seen[b] {
+			return
+		}
+		seen[b] = true
+		for _, ins := range b.Instrs {
+			if isLock(ins, "Lock") {
+				held = true
+			}
+			if isLock(ins, "Unlock") {
+				held = false
+			}
+			if held {
+				locked[ins] = true
+			}
+		}
+		for _, s := range b.Succs {
+			walk(s, held, seen)
+		}
+	}
+	walk(md.Blocks[0], false, map[*ssa.BasicBlock]bool{})
+	bad := token.NoPos
+	seenV := map[ssa.Value]bool{}
+	var visit func(v ssa.Value, d int)
+	visit = func(v ssa.Value, d int) {
+		if v == nil || seenV[v] || d > 12 {
+			return
+		}
+		seenV[v] = true
+		if ins, ok := v.(ssa.Instruction); ok {
+			if isRead(ins, cur) {
+				if !locked[ins] {
+					bad = ins.Pos()
+				}
+				return
+			}
+			for _, op := range ins.Operands(nil) {
+				if *op != nil {
+					visit(*op, d+1)
+				}
+			}
+		}
+	}
+	visit(arg, 0)
+	c.Check(bad == token.NoPos, "makeDeadline / the deadline given to extendClock is computed from current read under the lock", md.Pos(),
+		"on some path the deadline still comes from the read of current at %s, made before fast.mu was taken: if another caller restarted the clock in between (running is true again) the stale value is not recomputed and the deadline lies in the past", p.Pos(bad))
+}
+
+// R-TICKSUM: durations are downscaled before they are added.
+func RTickSum(c *core.Ctx) {
+	c.Rule("R-TICKSUM", "durationToTicks (which exists so that a timeout near math.MaxInt64 cannot overflow) is never applied to a sum that includes the caller's duration: each term is converted separately and the ticks are added", 1)
+	p := c.P
+	md := p.SSAFunc(p.LookupFunc("", "makeDeadline"))
+	d2t := p.SSAFunc(p.LookupFunc("", "durationToTicks"))
+	if md == nil || d2t == nil {
+		c.Anchor("makeDeadline / durationToTicks")
+		return
+	}
+	c.Visit(core.SSAName(md))
+	n := 0
+	for _, b := range md.Blocks {
+		for _, ins := range b.Instrs {
+			call, ok := ins.(*ssa.Call)
+			if !ok || call.Call.StaticCallee() != d2t {
+				continue
+			}
+			n++
+			bin, isSum := call.Call.Args[0].(*ssa.BinOp)
+			fromParam := false
+			if isSum && bin.Op == token.ADD {
+				for _, l := range []ssa.Value{bin.X, bin.Y} {
+					if l == ssa.Value(md.Params[0]) {
+						fromParam = true
+					}
+				}
+			}
+			c.Check(!fromParam, fmt.Sprintf("makeDeadline / durationToTicks call #%d is not applied to d plus something", n), call.Pos(),
+				"d + clockPeriod is computed in nanoseconds first: for a timeout within clockPeriod of math.MaxInt64 it wraps negative and the deadline is already reached (immediate false timeout)")
+		}
+	}
+	if n == 0 {
+		c.Anchor("durationToTicks calls in makeDeadline")
 	}
 }
